@@ -108,7 +108,7 @@ class ParserTotal(BoundedCheck):
             yield ''.join(toks)
         if self.shard == 0:
             for s in ('Y = {}', 'Y = {a} + }{', 'Y = {0}', 'Y = 1/0', 'Y = "a" + 1', 'Y = print(1)', '```\nx=1', 'é = 1', 'Y = H[--1]', 'Y = X\nY = X', '`self.Q = 1`\n`self.Q = 1`',
-                      'Y = X + X(1)', 'H = H(1)', 'Y = X(1) + X', 'b=A(1)+A', 'Y = f(X)\nZ = f', 'Y = exp + exp(X)', '```\nscale_ = 0.5\n```', '`q_ = 3`', 'Y = X\n`import_marker_ = [1]`', '```\nglobal g_\ng_ = 1\n```'):
+                      'Y = log(0) * X', 'Y = sqrt(X) + foo(2)', 'Y = np.log(0) + X', 'Y = X + X(1)', 'H = H(1)', 'Y = X(1) + X', 'b=A(1)+A', 'Y = f(X)\nZ = f', 'Y = exp + exp(X)', '```\nscale_ = 0.5\n```', '`q_ = 3`', 'Y = X\n`import_marker_ = [1]`', '```\nglobal g_\ng_ = 1\n```'):
                 yield s
 
     def check(self, s: str, res: BoundedResult):
@@ -125,6 +125,9 @@ class ParserTotal(BoundedCheck):
         import fsic.parser as _fp
         namespaces = {'fsic.parser': vars(_fp), 'fsic': vars(fsic), 'builtins': vars(builtins), '__main__': vars(sys.modules['__main__'])}
         names_before = {k: set(v) for k, v in namespaces.items()}
+        # module-level tables of the parser (replacement table, keyword list, ...): parsing leaves them as they are
+        tables_before = {k: (len(v), hash(tuple(sorted(map(repr, v.items() if isinstance(v, dict) else v)))))
+                         for k, v in vars(_fp).items() if isinstance(v, (dict, list, set)) and not k.startswith('__')}
         builtins.print = lambda *a, **k: printed.append(a)
         try:
             try:
@@ -145,6 +148,12 @@ class ParserTotal(BoundedCheck):
             out.append(Violation('parsing has no effect outside the returned objects (process-wide warning filters)', 'c13.side-effect:warnings-filters', s, 'unchanged', 'changed', 'no_effect'))
         # (`__warningregistry__` is CPython's own per-module bookkeeping for a warning issued while the syntax check executes a statement -
         # the recorded exec() finding F13 - not a name bound by the statement text)
+        tables_after = {k: (len(v), hash(tuple(sorted(map(repr, v.items() if isinstance(v, dict) else v)))))
+                        for k, v in vars(_fp).items() if isinstance(v, (dict, list, set)) and not k.startswith('__') and k in tables_before}
+        changed_tables = sorted(k for k in tables_before if tables_after.get(k) != tables_before[k])
+        if changed_tables:
+            out.append(Violation('parsing has no effect outside the returned objects (a module-level table of the parser was altered)', 'c13.side-effect:module-table', s,
+                                 'unchanged', changed_tables[:3], 'no_effect'))
         leaked = {k: sorted(set(v) - names_before[k] - {'__warningregistry__'}) for k, v in namespaces.items() if set(v) - names_before[k] - {'__warningregistry__'}}
         if leaked:
             for k, nms in leaked.items():
@@ -184,7 +193,7 @@ class ParserTotal(BoundedCheck):
             if got != want:
                 import re as _re
                 sig = 'c13.statement-dropped'
-                lhs_without_term = any('=' in st and not _re.search(r'[A-Za-z_]', _re.sub(r'`.+?`|\{[^}]*\}|<[^>]*>|[A-Za-z_][\w.]*\s*(?=\()', '', st.split('=', 1)[0])) for st in s.split('\n'))
+                lhs_without_term = any('=' in st and not _re.search(r'[A-Za-z_]', _re.sub(r'`.+?`|\{[^}]*\}|<[^>]*>|[A-Za-z_][\w.]*\s*(?=\()', '', st.split('=', 1)[0])) for st in s.splitlines())
                 if want > got and lhs_without_term:
                     sig += ':no-term-on-left-hand-side'
                 elif '```' in s and want > got:
